@@ -24,7 +24,7 @@ BOUNDS = {
              "down-chunking / loop / cut / overlap-window; violation kinds: wrong dtype (extra field, missing field, "
              "narrower int) as bare array, wrapped in a chunk that declares the plugin's dtype, and wrapped in a chunk "
              "that declares the wrong dtype itself, titled vs untitled dtype (must be accepted), rows "
-             "outside the chunk (1-3 time-sorted rows, symbolic times with end times in any order, symbolic bounds), wrong data_type label, gap / overlap between target "
+             "outside the chunk (1-3 time-sorted rows, symbolic times with end times in any order, symbolic bounds), wrong data_type label (foreign / a sibling output's), gap / overlap between target "
              "chunks (symbolic), non-dict from a multi-output plugin, non-chunk from a down-chunking plugin; both "
              "processors",
     "thorough": "same with 4 chunks",
@@ -99,13 +99,24 @@ def _violating_plugin(pkind, vkind, variant, k, wrap):
     elif pkind == "multi":
         class V(strax.Plugin):
             provides = ("vv", "vw"); depends_on = ("src",)
-            data_kind = immutabledict(vv="kv", vw="kw"); dtype = dict(vv=GOOD, vw=ctx.ROW)
+            data_kind = immutabledict(vv="kv", vw="kw")
+            # sibling_label: both outputs have the SAME dtype, so only the label tells the chunks apart
+            dtype = dict(vv=GOOD, vw=GOOD if vkind == "sibling_label" else ctx.ROW)
+            rechunk_on_save = False  # no Rechunker.concatenate on the way to storage that would notice a label
 
             def compute(self, ksrc, start, end):
                 bad = bad_here()
                 if vkind == "nondict" and bad:
                     return _mk(GOOD, [])
-                w = _mk(ctx.ROW, [(int(ksrc["time"][q]), int(ksrc["endtime"][q]), int(ksrc["id"][q])) for q in range(len(ksrc))])
+                rows = [(int(ksrc["time"][q]), int(ksrc["endtime"][q]), int(ksrc["id"][q])) for q in range(len(ksrc))]
+                w = _mk(ctx.ROW, rows)
+                if vkind == "sibling_label":
+                    # both outputs as full chunks; at the offending call the two chunks are filed under each other's key
+                    cv = strax.Chunk(start=start, end=end, run_id=RUN, data_kind="kv", data_type="vv", dtype=GOOD,
+                                     data=_mk(GOOD, rows))
+                    cw = strax.Chunk(start=start, end=end, run_id=RUN, data_kind="kw", data_type="vw", dtype=GOOD,
+                                     data=_mk(GOOD, rows))
+                    return dict(vv=cw, vw=cv) if bad else dict(vv=cv, vw=cw)
                 return dict(vv=payload(self, ksrc, start, end, "vv", bad=bad), vw=w)
     elif pkind == "down":
         class V(strax.DownChunkingPlugin):
@@ -200,7 +211,8 @@ def _run_table(pkind, vkind, variant, k, wrap, proc):
                     s.finish()
     except Exception as e:  # noqa
         exc = e
-    stored = st.is_stored(RUN, "vv")
+    # neither the target nor a side output of the violating plugin may be left behind as valid data
+    stored = st.is_stored(RUN, "vv") or (pkind == "multi" and st.is_stored(RUN, "vw"))
     return exc, res, stored
 
 
@@ -405,6 +417,7 @@ def _grid(tier):
                 for var in ("extra", "narrow"):
                     g.append(dict(pkind=pk, vkind="dtype", variant=var, wrap="own", proc=proc))
         g.append(dict(pkind="multi", vkind="nondict", proc=proc))
+        g.append(dict(pkind="multi", vkind="sibling_label", proc=proc))
         g.append(dict(pkind="down", vkind="nonchunk", proc=proc))
         g.append(dict(pkind="loop", vkind="nondict", proc=proc))
         g.append(dict(pkind="cut", vkind="length", proc=proc))
